@@ -362,7 +362,7 @@ async def groupby(
 
     async for element in iterator:
         next_key = element if key is None else await key(element)
-        if next_key != group_key:
+        if not (next_key is group_key or next_key == group_key):
             completed_group = group_key, values
             group_key = next_key
             values = [element]
